@@ -1,3 +1,4 @@
+mod alloc;
 mod container;
 mod core;
 mod gen;
@@ -9,6 +10,9 @@ mod rng;
 mod session;
 
 use session::{Ctx, Report};
+
+#[global_allocator]
+static GLOBAL: alloc::Counting = alloc::Counting;
 
 fn main() {
     let args: Vec<String> = std::env::args().collect();
@@ -59,6 +63,7 @@ fn main() {
             "C13" => props::c13(&ctx, &mut rep),
             "C14" => props::c14(&ctx, &mut rep),
             "C19" => container::c19(&ctx, &mut rep),
+            "C20" => alloc::c20(&ctx, &mut rep),
             _ => {
                 eprintln!("unknown property {}", prop);
                 std::process::exit(2);
@@ -87,6 +92,7 @@ fn replay_ops(ctx: &Ctx, rep: &mut Report, path: &str) {
     // the replay file is JSON with an "ops" array of strings; extract them crudely
     let mut ops: Vec<String> = vec![];
     let mut dend_ops: Vec<String> = vec![];
+    let mut alloc_ops: Vec<String> = vec![];
     if let Some(p) = text.find("\"ops\"") {
         let rest = &text[p..];
         if let (Some(a), Some(b)) = (rest.find('['), rest.find(']')) {
@@ -96,11 +102,19 @@ fn replay_ops(ctx: &Ctx, rep: &mut Report, path: &str) {
                 if s.starts_with("call ") || s.starts_with("with ") {
                     ops.push(s.to_string());
                 }
+                if s.starts_with("alloc ") {
+                    alloc_ops.push(s.to_string());
+                }
                 if s.starts_with("dend ") {
                     dend_ops.push(s.to_string());
                 }
             }
         }
+    }
+    if !alloc_ops.is_empty() {
+        alloc::replay(ctx, &alloc_ops);
+        rep.seen(&alloc_ops.join("\n"), true);
+        return;
     }
     if !dend_ops.is_empty() {
         container::replay_dend(ctx, &dend_ops);
